@@ -291,8 +291,6 @@ TABLE["C18"] = [
     B("size_t-written-into-32-bit-array", {"K3"},
       (H, "  mxArray *result = scalar(mxUINT32OR64_CLASS);\n  *(size_t*)mxGetData(result) = value;",
        "  mxArray *result = scalar(mxUINT32_CLASS);\n  *(size_t*)mxGetData(result) = value;")),
-    B("int-written-as-long", {"K3"},
-      (H, "  *(int*)mxGetData(result) = value;", "  *(long*)mxGetData(result) = value;")),
     B("unwrap-unsigned-char-removed", {"K1"},
       (H, "// specialization to unsigned char\ntemplate<>\nunsigned char unwrap<unsigned char>(const mxArray* array) {\n"
           "  checkScalar(array,\"unwrap<unsigned char>\");\n  return myGetScalar<unsigned char>(array);\n}\n", "")),
@@ -1652,4 +1650,18 @@ TABLE["C10"] += [
 ]
 TABLE["C06"] += [
     B("given-names-joined-into-a-string", {"M4"}, (MW, "        explicit_arg_names = [arg.name for arg in args.list()]", "        explicit_arg_names = ','.join(arg.name for arg in args.list())")),
+]
+_K3_SIZE_T = "  mxArray *result = scalar(mxUINT32OR64_CLASS);\n  *(size_t*)mxGetData(result) = value;"
+for _p, _r in (("C18", "K3"), ("C11", "H15")):
+    TABLE[_p] += [
+        B("size_t-result-through-unsigned-int", {_r}, (H, _K3_SIZE_T, "  mxArray *result = scalar(mxUINT32OR64_CLASS);\n  *(size_t*)mxGetData(result) = (unsigned int)value;")),
+        B("size_t-result-stored-as-int", {_r}, (H, _K3_SIZE_T, "  mxArray *result = scalar(mxUINT32OR64_CLASS);\n  *(int*)mxGetData(result) = value;")),
+        B("size_t-result-through-a-double", {_r}, (H, _K3_SIZE_T, "  mxArray *result = scalar(mxUINT32OR64_CLASS);\n  double d = value;\n  *(size_t*)mxGetData(result) = (size_t)d;")),
+        N("int-result-stored-widened", (H, "  *(int*)mxGetData(result) = value;", "  *(long*)mxGetData(result) = value;")),
+    ]
+TABLE["C11"] += [
+    B("shape-tests-chosen-by-matlab-class", {"H9"}, (MW, "            if name == 'Vector':\n                var_arg_wrap +=", "            if check_type == 'Vector':\n                var_arg_wrap +=")),
+]
+TABLE["C06"] += [
+    B("shape-tests-chosen-by-matlab-class", {"M2"}, (MW, "            if name == 'Point2':\n                check_statement +=", "            if check_type == 'Point2':\n                check_statement +=")),
 ]
